@@ -65,6 +65,7 @@ type Case struct {
 	External bool     `json:"external,omitempty"`
 	Others   int      `json:"others,omitempty"` // C05: other databases opened in the same process first
 	Variant  int      `json:"variant,omitempty"`
+	Workers  int      `json:"workers,omitempty"` // worker pool size of the database (0 = 2); 1 makes cleanup jobs take the deferred path
 	// RootStyle: how the root directories are spelled in the configuration: 0 canonical, 1 trailing
 	// slash, 2 doubled slash, 3 a "/./" segment (all name the same directories)
 	RootStyle int `json:"root_style,omitempty"`
@@ -134,6 +135,13 @@ func newWorldStruct(c Case, r *ev.Result) *World {
 	return &World{Case: c, R: r, M: model.New(), handles: map[int]*handle{}, byHash: map[[32]byte]string{}, Stats: map[string]int{}, ctx: context.Background()}
 }
 
+func b2i(b bool) int {
+	if b {
+		return 1
+	}
+	return 0
+}
+
 func (w *World) setCfg() {
 	var roots []string
 	for i := 0; i < w.Case.Roots; i++ {
@@ -150,7 +158,7 @@ func (w *World) setCfg() {
 	}
 	w.Cfg = config.Config{
 		Storage: config.Storage{DbPath: filepath.Join(w.Dir, "db"), MaxDirCount: w.Case.MaxDir, RootDirs: roots, GCPeriod: time.Hour},
-		WPool:   config.WPool{NumWorkers: 2, SendDuration: time.Millisecond},
+		WPool:   config.WPool{NumWorkers: max(w.Case.Workers, 0) + 2*b2i(w.Case.Workers <= 0), SendDuration: time.Millisecond},
 	}
 }
 
@@ -423,11 +431,18 @@ func (w *World) pickActor(op Op) (id int, ok bool) {
 	return open[(h-1)%len(open)], true
 }
 
+// chunkReader is a source for SetReader with every legal io.Reader habit: short reads (split > 0),
+// reads of zero bytes without error (split == ZeroRead), and the final bytes delivered together with
+// io.EOF (eofWithData) instead of a separate (0, io.EOF).
 type chunkReader struct {
-	b     []byte
-	split []int
-	i     int
+	b           []byte
+	split       []int
+	i           int
+	eofWithData bool
 }
+
+// ZeroRead in a reader split list: this Read returns (0, nil).
+const ZeroRead = -1
 
 func (c *chunkReader) Read(p []byte) (int, error) {
 	if len(c.b) == 0 {
@@ -435,16 +450,23 @@ func (c *chunkReader) Read(p []byte) (int, error) {
 	}
 	n := len(p)
 	if len(c.split) > 0 {
-		if s := c.split[c.i%len(c.split)]; s > 0 && s < n {
+		s := c.split[c.i%len(c.split)]
+		c.i++
+		if s == ZeroRead && c.i <= 4*len(c.split) {
+			return 0, nil
+		}
+		if s > 0 && s < n {
 			n = s
 		}
-		c.i++
 	}
 	if n > len(c.b) {
 		n = len(c.b)
 	}
 	copy(p, c.b[:n])
 	c.b = c.b[n:]
+	if len(c.b) == 0 && c.eofWithData {
+		return n, io.EOF
+	}
 	return n, nil
 }
 
@@ -452,7 +474,7 @@ func (c *chunkReader) Read(p []byte) (int, error) {
 func (w *World) doWrite(s fs_db.Store, key string, b []byte, op Op) error {
 	switch op.Via {
 	case "reader":
-		return s.SetReader(w.ctx, key, &chunkReader{b: append([]byte(nil), b...), split: op.Split})
+		return s.SetReader(w.ctx, key, &chunkReader{b: append([]byte(nil), b...), split: op.Split, eofWithData: len(b)%2 == 1})
 	case "create":
 		f, err := s.Create(w.ctx, key)
 		if err != nil {
